@@ -52,6 +52,12 @@ Theorem rot_limit : forall strf rtm c, (forall k t, strf k t <> []) -> forall wm
 Proof. exact rot_limit_thm. Qed.
 Print Assumptions rot_limit.
 
+(* reading of ok_size when statement sizes are positive: within the limit, or one single statement *)
+Theorem rot_limit_single : forall c cs, (forall a, In a cs -> 0 < swr a) -> ok_size c cs ->
+  fsize cs <= c_limit c \/ length cs = 1%nat.
+Proof. exact ok_size_single. Qed.
+Print Assumptions rot_limit_single.
+
 (* rot_count: at most max_backup_files rotated files; the files named stem.*.ext on disk are exactly
    the (pairwise distinct) names of the deque; with overwrite off nothing is ever deleted. *)
 Theorem rot_count : forall strf rtm c, (forall k t, strf k t <> []) -> forall wm rm start d0 ops,
@@ -81,6 +87,23 @@ Theorem rot_append_restart : forall strf rtm c, (forall k t, strf k t <> []) -> 
   fs s' = fs sN /\ dq s' = mk_live c st :: map forget (tl (dq sN)) /\ retained s' = retained sN /\ Good c d0 s'.
 Proof. exact rot_append_restart_thm. Qed.
 Print Assumptions rot_append_restart.
+
+(* rot_append_restart, Date scheme — PARTIAL: an append-mode restart finds the directory unchanged and
+   recovers exactly today's files, in order (premises: strftime("%Y%m%d") gives at least 8 characters,
+   no index in use renders as today's date).  Missing: the all-history invariant carrying the
+   unrecovered files of earlier dates (they are never renamed or deleted again; with timestamps that
+   go backwards they can be overwritten: open finding C14-date-restart-backwards). *)
+Theorem rot_append_restart_date_partial : forall strf rtm c, (forall k t, strf k t <> []) -> forall wm rm start d0 ops,
+  init_ok c wm d0 -> Forall (ok_op c) ops -> c_scheme c = SDate ->
+  forall rm' st,
+  let sN := run0 strf rtm c wm rm start d0 ops in
+  8 <= N.of_nat (length (strf 0 (st / NS))) ->
+  (forall f, In f (tl (dq sN)) -> dec (fidx f) <> strf 0 (st / NS)) ->
+  let s' := construct strf rtm c false rm' st (fs sN) in
+  fs s' = fs sN /\
+  dq s' = mk_live c st :: map forget (filter (today_of (strf 0 (st / NS))) (tl (dq sN))).
+Proof. exact rot_append_restart_date_thm. Qed.
+Print Assumptions rot_append_restart_date_partial.
 
 (* rot_w_restart: what a constructor in mode "w" with remove_old_files leaves on disk *)
 Theorem rot_w_restart : forall strf rtm c start d p,
